@@ -28,7 +28,9 @@ def holds : Proc → Bool
   | .gCallCA _ => true
   | .gRegCheck _ _ => true
   | .gRegStore _ _ _ _ => true
+  | .gRegPush _ _ _ _ _ => true
   | .gAfterReg _ _ => true
+  | .gNotifyRoot _ _ => true
   | .gUnlock _ => true
   | .gDone _ => false
   | .tCheck _ => false
@@ -36,6 +38,7 @@ def holds : Proc → Bool
   | .tNotify _ _ => false
   | .tDone _ _ => false
   | .uSet _ => false
+  | .uNotifyRoot _ _ => false
   | .uClear => false
   | .uNotify _ => false
   | .uDone _ => false
@@ -57,7 +60,9 @@ def fresh : Proc → Bool
 def carried : Proc → Option Nat
   | .gRegCheck _ it => some it.key
   | .gRegStore _ it _ _ => some it.key
+  | .gRegPush _ it _ _ _ => some it.key
   | .gAfterReg _ it => some it.key
+  | .gNotifyRoot _ it => some it.key
   | .gUnlock r => r.key
   | .gDone r => r.key
   | _ => none
@@ -66,7 +71,9 @@ def carried : Proc → Option Nat
 def procPaired : Proc → Prop
   | .gRegCheck _ it => it.key = it.cert
   | .gRegStore _ it _ _ => it.key = it.cert
+  | .gRegPush _ it _ _ _ => it.key = it.cert
   | .gAfterReg _ it => it.key = it.cert
+  | .gNotifyRoot _ it => it.key = it.cert
   | .gUnlock r => r.key = r.cert
   | .gDone r => r.key = r.cert
   | _ => True
@@ -78,6 +85,7 @@ def GoodDelay (created expire delay cat : Int) : Prop :=
 
 def procSched : Proc → Prop
   | .gRegStore _ it d cat => GoodDelay it.created it.expire d cat
+  | .gRegPush _ it d cat _ => GoodDelay it.created it.expire d cat
   | _ => True
 
 /-- The `stores` counter a process remembered when it emptied the cache (between clear and notify). -/
@@ -119,7 +127,34 @@ def SamePairInv (y : Sys) : Prop :=
 def PairInv (y : Sys) : Prop :=
   (∀ w, y.st.workload = some w → w.key = w.cert) ∧ ∀ q, procPaired (y.procs q)
 
-def QueueInv (y : Sys) : Prop := y.st.queue.length = y.st.stores
+/-- Between `SetWorkload(&item)` and `PushDelayed`. -/
+def isPush : Proc → Bool
+  | .gRegPush _ _ _ _ _ => true
+  | _ => false
+
+/-- 1 if the owner of generateMutex has stored its item and not yet pushed the task. -/
+def pendingPush (y : Sys) : Nat :=
+  match y.st.mutex with
+  | some q => if isPush (y.procs q) then 1 else 0
+  | none => 0
+
+/-- One queue entry per store; the storer that has not pushed yet accounts for the difference. -/
+def QueueInv (y : Sys) : Prop := y.st.queue.length + pendingPush y = y.st.stores
+
+/-- While a caller is between its store and its push, the cache holds exactly its item, unless the
+    cache was emptied since. -/
+def PushInv (y : Sys) : Prop :=
+  ∀ q res it d c m, y.procs q = .gRegPush res it d c m →
+    m ≤ y.st.clears ∧ (y.st.workload = some it ∨ (y.st.workload = none ∧ m < y.st.clears))
+
+/-- `OnSecretUpdate(ROOTCA)` of GenerateSecret is called with `certRoot` already holding the new root
+    (only the owner of generateMutex writes it). -/
+def RootNotifyInv (y : Sys) : Prop := ∀ q res it, y.procs q = .gNotifyRoot res it → y.st.certRoot = it.root
+
+/-- `OnSecretUpdate(ROOTCA)` of UpdateConfigTrustBundle is called with configTrustBundle holding the
+    announced bundle, unless another update stored a different one since. -/
+def CfgNotifyInv (y : Sys) : Prop :=
+  ∀ q b m, y.procs q = .uNotifyRoot b m → m ≤ y.st.cfgWrites ∧ (y.st.cfg ≠ b → m < y.st.cfgWrites)
 
 def SchedInv (y : Sys) : Prop :=
   (∀ en ∈ y.st.queue, GoodDelay en.created en.expire en.delay en.computedAt) ∧ ∀ q, procSched (y.procs q)
@@ -152,7 +187,24 @@ def SchedInv (y : Sys) : Prop :=
 @[simp] theorem notifyWorkload_stores (s : State) : (notifyWorkload s).stores = s.stores := rfl
 @[simp] theorem notifyWorkload_caCalls (s : State) : (notifyWorkload s).caCalls = s.caCalls := rfl
 @[simp] theorem notifyWorkload_cfg (s : State) : (notifyWorkload s).cfg = s.cfg := rfl
+@[simp] theorem notifyWorkload_cfgWrites (s : State) : (notifyWorkload s).cfgWrites = s.cfgWrites := rfl
+@[simp] theorem afterRegState_cfgWrites (s : State) (it : Item) : (afterRegState s it).cfgWrites = s.cfgWrites := by
+  unfold afterRegState; split <;> rfl
 @[simp] theorem notifyWorkload_certRoot (s : State) : (notifyWorkload s).certRoot = s.certRoot := rfl
+
+@[simp] theorem pushState_workload (s : State) (it : Item) (d c n : Int) : (pushState s it d c n).workload = s.workload := rfl
+@[simp] theorem pushState_mutex (s : State) (it : Item) (d c n : Int) : (pushState s it d c n).mutex = s.mutex := rfl
+@[simp] theorem pushState_clears (s : State) (it : Item) (d c n : Int) : (pushState s it d c n).clears = s.clears := rfl
+@[simp] theorem pushState_ok (s : State) (it : Item) (d c n : Int) : (pushState s it d c n).okSinceClear = s.okSinceClear := rfl
+@[simp] theorem pushState_stores (s : State) (it : Item) (d c n : Int) : (pushState s it d c n).stores = s.stores := rfl
+@[simp] theorem pushState_caCalls (s : State) (it : Item) (d c n : Int) : (pushState s it d c n).caCalls = s.caCalls := rfl
+@[simp] theorem pushState_cfg (s : State) (it : Item) (d c n : Int) : (pushState s it d c n).cfg = s.cfg := rfl
+@[simp] theorem pushState_certRoot (s : State) (it : Item) (d c n : Int) : (pushState s it d c n).certRoot = s.certRoot := rfl
+@[simp] theorem pushState_events (s : State) (it : Item) (d c n : Int) : (pushState s it d c n).events = s.events := rfl
+@[simp] theorem pushState_cfgWrites (s : State) (it : Item) (d c n : Int) : (pushState s it d c n).cfgWrites = s.cfgWrites := rfl
+@[simp] theorem pushState_queue (s : State) (it : Item) (d c n : Int) :
+    (pushState s it d c n).queue =
+      s.queue ++ [⟨it.created, d, n, it.expire, c, it.key, s.workload.isSome, false⟩] := rfl
 
 /-! ### Preservation by `step` -/
 
@@ -299,13 +351,33 @@ theorem step_pair {y : Sys} (p : Nat) (i : Input) (h : PairInv y) : PairInv (ste
     | (subst hqp; simp_all [procPaired, clearWorkload, newItem]; done)
     | (intro w hw'; simp_all [procPaired, clearWorkload, newItem]; done))
 
-theorem step_queue {y : Sys} (p : Nat) (i : Input) (h : QueueInv y) : QueueInv (step y p i) := by
-  unfold QueueInv at *
-  unfold step
-  simp only [finish]
-  split <;> try exact h
-  all_goals (repeat' split)
-  all_goals (simp_all [clearWorkload])
+theorem step_queue {y : Sys} (p : Nat) (i : Input) (hM : MutexInv y) (h : QueueInv y) : QueueInv (step y p i) := by
+  have mp := hM p
+  unfold QueueInv pendingPush at *
+  cases hm : y.st.mutex with
+  | none =>
+    rw [hm] at h mp
+    unfold step
+    simp only [finish]
+    split <;> try (simp only [hm]; exact h)
+    all_goals (repeat' split)
+    all_goals (simp_all [holds, isPush, clearWorkload])
+  | some q0 =>
+    rw [hm] at h mp
+    by_cases hq0 : q0 = p
+    · subst hq0
+      unfold step
+      simp only [finish]
+      split <;> try (simp only [hm]; exact h)
+      all_goals (repeat' split)
+      all_goals (simp_all [holds, isPush, clearWorkload])
+      all_goals (try omega)
+    · have hne : ¬ p = q0 := fun h => hq0 h.symm
+      unfold step
+      simp only [finish]
+      split <;> try (simp only [hm]; exact h)
+      all_goals (repeat' split)
+      all_goals (simp_all [holds, isPush, clearWorkload])
 
 theorem goodDelay_rotate (c e now : Int) (r j : Frac) : GoodDelay c e (rotateDelay c e now r j) now :=
   ⟨delay_nonneg _ _ _ _ _, fun h1 h2 => rotate_not_after_expiry h1 h2⟩
@@ -325,7 +397,7 @@ theorem step_sched {y : Sys} (p : Nat) (i : Input) (h : SchedInv y) : SchedInv (
     | (subst hqp; simp_all [procSched, clearWorkload]; done)
     | (subst hqp; simp only [upd_same, procSched]; exact goodDelay_rotate _ _ _ _ _)
     | (intro en hen
-       simp only [List.mem_append, List.mem_singleton] at hen
+       simp only [pushState_queue, List.mem_append, List.mem_singleton] at hen
        rcases hen with hen | hen
        · exact hq en hen
        · subst hen; simp_all [procSched]))
@@ -408,10 +480,12 @@ theorem step_notify {y : Sys} (p : Nat) (i : Input) (h : NotifyInv y) : NotifyIn
 def Pending (y : Sys) (e : Nat) (en : Entry) : Prop :=
   en.fired = false ∨ ∃ p, y.procs p = .tCheck e ∨ y.procs p = .tClear e
 
-/-- Whatever is cached has its rotation task in the queue, and that task is still pending. -/
+/-- Whatever is cached has its rotation task in the queue and that task is still pending - or the
+    caller that stored it is between `SetWorkload(&item)` and `PushDelayed`. -/
 def PendingTaskInv (y : Sys) : Prop :=
-  ∀ w, y.st.workload = some w → ∃ e en, y.st.queue[e]? = some en ∧ en.created = w.created ∧
-    en.expire = w.expire ∧ Pending y e en
+  ∀ w, y.st.workload = some w →
+    (∃ e en, y.st.queue[e]? = some en ∧ en.created = w.created ∧ en.expire = w.expire ∧ en.key = w.key ∧ Pending y e en) ∨
+    (∃ p res d c m, y.procs p = .gRegPush res w d c m)
 
 theorem step_procs_other (y : Sys) (p : Nat) (i : Input) {q : Nat} (h : q ≠ p) : (step y p i).procs q = y.procs q := by
   unfold step
@@ -420,11 +494,74 @@ theorem step_procs_other (y : Sys) (p : Nat) (i : Input) {q : Nat} (h : q ≠ p)
   all_goals (repeat' split)
   all_goals (simp [h])
 
+theorem step_push {y : Sys} (p : Nat) (i : Input) (hM : MutexInv y) (h : PushInv y) : PushInv (step y p i) := by
+  intro q res it d c m
+  have hq := h q res it d c m
+  have mq := hM q
+  have mp := hM p
+  unfold step
+  simp only [finish]
+  split <;> try exact hq
+  all_goals (repeat' split)
+  all_goals (by_cases hqp : q = p)
+  all_goals (first
+    | (subst hqp; simp_all [holds, clearWorkload]; done)
+    | (subst hqp; simp_all [holds, clearWorkload]; omega)
+    | (have hqp' : ¬ p = q := fun h => hqp h.symm
+       simp_all [holds, clearWorkload]; done)
+    | (have hqp' : ¬ p = q := fun h => hqp h.symm
+       simp_all [holds, clearWorkload]; omega)
+    | (have hqp' : ¬ p = q := fun h => hqp h.symm
+       simp_all [holds, clearWorkload]
+       intro hh; have := hq hh; omega)
+    | (have hqp' : ¬ p = q := fun h => hqp h.symm
+       simp_all [holds, clearWorkload]
+       intro hh; simp_all [holds]))
+
+theorem step_rootNotify {y : Sys} (p : Nat) (i : Input) (hM : MutexInv y) (h : RootNotifyInv y) :
+    RootNotifyInv (step y p i) := by
+  intro q res it
+  have hq := h q res it
+  have mq := hM q
+  have mp := hM p
+  unfold step
+  simp only [finish]
+  split <;> try exact hq
+  all_goals (repeat' split)
+  all_goals (by_cases hqp : q = p)
+  all_goals (first
+    | (subst hqp; simp_all [holds, clearWorkload]; done)
+    | (have hqp' : ¬ p = q := fun h => hqp h.symm
+       simp_all [holds, clearWorkload]; done)
+    | (have hqp' : ¬ p = q := fun h => hqp h.symm
+       simp_all [holds, clearWorkload]
+       intro hh; simp_all [holds]))
+
+theorem step_cfgNotify {y : Sys} (p : Nat) (i : Input) (h : CfgNotifyInv y) : CfgNotifyInv (step y p i) := by
+  intro q b m
+  have hq := h q b m
+  unfold step
+  simp only [finish]
+  split <;> try exact hq
+  all_goals (repeat' split)
+  all_goals (by_cases hqp : q = p)
+  all_goals (first
+    | (subst hqp; simp_all [clearWorkload]; done)
+    | (subst hqp; simp_all [clearWorkload]; omega)
+    | (simp_all [clearWorkload]; done)
+    | (simp_all [clearWorkload]; omega)
+    | (simp_all [clearWorkload]
+       intro hh; have := hq hh; omega))
+
+/-- What a step can do to the cache and the queue. -/
 theorem step_workload_cases (y : Sys) (p : Nat) (i : Input) :
-    ((step y p i).st.workload = y.st.workload ∧ ∀ e, y.procs p ≠ .tClear e) ∨ (step y p i).st.workload = none ∨
+    ((step y p i).st.workload = y.st.workload ∧ (∀ e, y.procs p ≠ .tClear e) ∧
+      ((∀ res it d c m, y.procs p ≠ .gRegPush res it d c m) ∨
+       (∃ res it d c m, y.procs p = .gRegPush res it d c m ∧
+          (step y p i).st.queue = y.st.queue ++ [⟨it.created, d, i.now, it.expire, c, it.key, y.st.workload.isSome, false⟩]))) ∨
+    (step y p i).st.workload = none ∨
     (∃ res it d c, y.procs p = .gRegStore res it d c ∧ (step y p i).st.workload = some it ∧
-      (step y p i).st.queue = y.st.queue ++ [{ created := it.created, delay := d, pushedAt := i.now,
-                                               expire := it.expire, computedAt := c }]) := by
+      (step y p i).procs p = .gRegPush res it d c y.st.clears) := by
   unfold step
   simp only [finish]
   split
@@ -449,35 +586,48 @@ theorem step_tcheck_match {y : Sys} {p e : Nat} {en : Entry} {w : Item} (i : Inp
     (step y p i).procs p = .tClear e := by
   simp [step, hp, hq, hw, hc]
 
-theorem step_pendingTask {y : Sys} (p : Nat) (i : Input) (h : PendingTaskInv y) : PendingTaskInv (step y p i) := by
+theorem step_pendingTask {y : Sys} (p : Nat) (i : Input) (hP : PushInv y) (h : PendingTaskInv y) :
+    PendingTaskInv (step y p i) := by
   intro w' hw'
-  rcases step_workload_cases y p i with ⟨hsame, hnc⟩ | hnone | ⟨res, it, d, c, hp, hw, hq⟩
+  rcases step_workload_cases y p i with ⟨hsame, hnc, hpush⟩ | hnone | ⟨res, it, d, c, hp, hw, hpr⟩
   · rw [hsame] at hw'
-    obtain ⟨e, en, hq, hc, he, hpend⟩ := h w' hw'
-    refine ⟨e, en, step_queue_get y p i hq, hc, he, ?_⟩
-    rcases hpend with hf | ⟨p0, hp0⟩
-    · exact Or.inl hf
-    · right
-      by_cases hpp : p0 = p
+    rcases h w' hw' with ⟨e, en, hq, hc, he, hk, hpend⟩ | ⟨p0, res, d, c, m, hp0⟩
+    · left
+      refine ⟨e, en, step_queue_get y p i hq, hc, he, hk, ?_⟩
+      rcases hpend with hf | ⟨p0, hp0⟩
+      · exact Or.inl hf
+      · right
+        by_cases hpp : p0 = p
+        · subst hpp
+          rcases hp0 with h1 | h1
+          · exact ⟨p0, Or.inr (step_tcheck_match i h1 hq hw' hc)⟩
+          · exact absurd h1 (hnc e)
+        · exact ⟨p0, by rw [step_procs_other y p i hpp]; exact hp0⟩
+    · by_cases hpp : p0 = p
       · subst hpp
-        rcases hp0 with h1 | h1
-        · exact ⟨p0, Or.inr (step_tcheck_match i h1 hq hw' hc)⟩
-        · exact absurd h1 (hnc e)
-      · exact ⟨p0, by rw [step_procs_other y p i hpp]; exact hp0⟩
+        rcases hpush with hno | ⟨res2, it2, d2, c2, m2, hp2, hq2⟩
+        · exact absurd hp0 (hno res w' d c m)
+        · rw [hp0] at hp2; cases hp2
+          left
+          refine ⟨y.st.queue.length, ⟨w'.created, d, i.now, w'.expire, c, w'.key, y.st.workload.isSome, false⟩,
+            ?_, rfl, rfl, rfl, Or.inl rfl⟩
+          rw [hq2]; simp
+      · right
+        exact ⟨p0, res, d, c, m, by rw [step_procs_other y p i hpp]; exact hp0⟩
   · rw [hnone] at hw'; cases hw'
   · rw [hw] at hw'
     cases hw'
-    refine ⟨y.st.queue.length, { created := w'.created, delay := d, pushedAt := i.now, expire := w'.expire, computedAt := c },
-      ?_, rfl, rfl, Or.inl rfl⟩
-    rw [hq]; simp
-
+    right
+    exact ⟨p, res, d, c, y.st.clears, hpr⟩
 
 /-! ### CA roots are never empty -/
 
 def procRootsOk : Proc → Prop
   | .gRegCheck _ it => it.root ≠ []
   | .gRegStore _ it _ _ => it.root ≠ []
+  | .gRegPush _ it _ _ _ => it.root ≠ []
   | .gAfterReg _ it => it.root ≠ []
+  | .gNotifyRoot _ it => it.root ≠ []
   | .gMerge roots _ => roots ≠ []
   | _ => True
 
